@@ -80,6 +80,10 @@ struct Plan {
     stagger_ms: u64,
     /// a warm-up lookup before the measured ones (fills SRTT statistics, opens connections)
     warmup: bool,
+    /// caller 0 gives up (drops its lookup future) after this many ms (0 = never); once every
+    /// caller is done, the same question is asked again on the same pool
+    #[serde(default)]
+    cancel_first_ms: u64,
 }
 
 fn marker(server: usize, tcp: bool) -> Ipv4Addr {
@@ -165,13 +169,14 @@ impl Part for PoolPart {
             callers,
             stagger_ms: *r.pick(&[0u64, 0, 1, 30]),
             warmup: r.chance(1, 4),
+            cancel_first_ms: if r.chance(1, 5) { *r.pick(&[1u64, 10, 50, 200, 600]) } else { 0 },
         })
         .unwrap()
     }
     fn run(&self, plan: &Value, trace: bool) -> Report {
         let mut p: Plan = serde_json::from_value(plan.clone()).expect("plan");
         p.sim.trace = trace;
-        let mut sig = mix(p.ordering as u64 ^ (p.num_concurrent_reqs as u64) << 4 ^ (p.callers.len() as u64) << 8 ^ (p.timeout_ms) << 16 ^ (p.warmup as u64) << 40);
+        let mut sig = mix(p.ordering as u64 ^ (p.num_concurrent_reqs as u64) << 4 ^ (p.callers.len() as u64) << 8 ^ (p.timeout_ms) << 16 ^ (p.warmup as u64) << 40 ^ (p.cancel_first_ms) << 44);
         for s in &p.servers {
             let u = match s.udp {
                 Udp::Answer(_) => 1,
@@ -214,6 +219,11 @@ impl Part for PoolPart {
         if p.warmup {
             let mut q = p.clone();
             q.warmup = false;
+            out.push(q);
+        }
+        if p.cancel_first_ms != 0 {
+            let mut q = p.clone();
+            q.cancel_first_ms = 0;
             out.push(q);
         }
         if p.stagger_ms != 0 {
@@ -422,18 +432,33 @@ async fn scenario(p: Plan) {
         nx: bool,
     }
     let outcomes: Rc<RefCell<BTreeMap<usize, Outcome>>> = Rc::new(RefCell::new(BTreeMap::new()));
+    let cancelled = Rc::new(std::cell::Cell::new(false));
     let mut joins = Vec::new();
     for (i, qi) in p.callers.iter().enumerate() {
         let pool = pool.clone();
         let q = qs[*qi as usize % qs.len()].clone();
         let outcomes = outcomes.clone();
+        let cancel_ms = p.cancel_first_ms;
+        let cancelled = cancelled.clone();
         let delay = p.stagger_ms * i as u64;
         joins.push(exec::spawn(&format!("caller{i}"), async move {
             if delay > 0 {
                 exec::sleep_ns(delay * MS).await;
             }
             let start = exec::now_ns();
-            let r = pool.lookup(q, ropts).next().await;
+            let r = if i == 0 && cancel_ms != 0 {
+                // the caller loses interest: the lookup future is dropped in flight
+                match exec::timeout(Duration::from_millis(cancel_ms), async { pool.lookup(q, ropts).next().await }).await {
+                    Ok(r) => r,
+                    Err(()) => {
+                        exec::count("fault.caller_cancelled");
+                        cancelled.set(true);
+                        return;
+                    }
+                }
+            } else {
+                pool.lookup(q, ropts).next().await
+            };
             let end = exec::now_ns();
             let (result, nx) = match r {
                 Some(Ok(resp)) => {
@@ -457,6 +482,38 @@ async fn scenario(p: Plan) {
             exec::violate("C18.hang", "", "a lookup was still pending long after every timer could have fired".into());
             return;
         }
+    }
+    if cancelled.get() {
+        // the question of the caller that gave up, asked again: the abandoned exchange must not
+        // be what answers it
+        // (either at once, or after every timer of the abandoned exchange has run out)
+        exec::sleep_ns(if p.cancel_first_ms % 20 == 10 { 5 * MS } else { (p.timeout_ms + 100) * MS }).await;
+        let q = qs[p.callers[0] as usize % qs.len()].clone();
+        let start = exec::now_ns();
+        let r = match exec::timeout(Duration::from_millis(p.timeout_ms * 6 + 30_000), async { pool.lookup(q, ropts).next().await }).await {
+            Ok(r) => r,
+            Err(()) => {
+                exec::violate("C18.hang", "follow-up", "the follow-up lookup was still pending long after every timer could have fired".into());
+                return;
+            }
+        };
+        let end = exec::now_ns();
+        let (result, nx) = match r {
+            Some(Ok(resp)) => {
+                let m = resp.answers.iter().find_map(|r| match &r.data {
+                    RData::A(a) => Some(a.0),
+                    _ => None,
+                });
+                (Ok((m, resp.truncation)), false)
+            }
+            Some(Err(e)) => {
+                let nx = matches!(&e, NetError::Dns(DnsError::NoRecordsFound(nr)) if nr.response_code == ResponseCode::NXDomain);
+                (Err(e.to_string()), nx)
+            }
+            None => (Err("stream ended".into()), false),
+        };
+        exec::count("probe.follow_up_after_cancel");
+        outcomes.borrow_mut().insert(1000, Outcome { start, end, result, nx });
     }
     let outcomes = outcomes.borrow();
 
@@ -554,7 +611,44 @@ async fn scenario(p: Plan) {
         .sum();
     // (with a truncating server in the mix, which servers are re-asked over TCP depends on the
     // order they were tried in, which the statement does not fix: availability is not judged there)
-    let unambiguous = any_healthy && !has_final_negative && none_slow && !any_truncating && total_ms * 2 < p.timeout_ms;
+    let unambiguous_plain = any_healthy && !has_final_negative && none_slow && !any_truncating && total_ms * 2 < p.timeout_ms;
+    // With a truncating server in the mix the only thing the statement fixes is this: once UDP
+    // is off, a server that answers over TCP can still answer, so if one exists, nothing can
+    // stall (no silent UDP, no black-holed or silent TCP anywhere) and no server ends the search
+    // with a trusted negative answer, the lookup succeeds whatever the order.
+    // (healthy = no transport fault on any protocol it is configured for; a truncated UDP reply
+    // is not a fault, it is the cue for TCP)
+    let tcp_healthy = p.servers.iter().any(|s| matches!(s.tcp, Tcp::Answer(_)) && (s.protocols == 1 || (s.protocols == 2 && matches!(s.udp, Udp::Answer(_) | Udp::Truncated(_)))));
+    let nothing_stalls = p.servers.iter().all(|s| (s.protocols == 1 || !matches!(s.udp, Udp::Silent)) && (s.protocols == 0 || !matches!(s.tcp, Tcp::Blackhole | Tcp::Silent)));
+    let any_negative = p.servers.iter().any(|s| (s.protocols != 1 && matches!(s.udp, Udp::NxDomain(_) | Udp::ServFail(_))) || (s.protocols != 0 && matches!(s.tcp, Tcp::NxDomain(_))));
+    let worst_ms: u64 = p
+        .servers
+        .iter()
+        .map(|s| {
+            let u = if s.protocols != 1 {
+                match s.udp {
+                    Udp::Answer(l) | Udp::NxDomain(l) | Udp::Truncated(l) | Udp::ServFail(l) => l as u64 + 2,
+                    _ => 1,
+                }
+            } else {
+                0
+            };
+            let t = if s.protocols != 0 {
+                match s.tcp {
+                    Tcp::Answer(l) | Tcp::NxDomain(l) => l as u64 + 5,
+                    _ => 5,
+                }
+            } else {
+                0
+            };
+            u + t
+        })
+        .sum();
+    let unambiguous_trunc = any_truncating && tcp_healthy && nothing_stalls && !any_negative && worst_ms * 2 < p.timeout_ms;
+    if unambiguous_trunc {
+        exec::count("probe.availability_judged_with_truncation");
+    }
+    let unambiguous = unambiguous_plain || unambiguous_trunc;
 
     for (i, o) in outcomes.iter() {
         let took = o.end - o.start;
@@ -595,7 +689,8 @@ async fn scenario(p: Plan) {
                 // (b) availability where unambiguous; (d) untrusted NXDOMAIN must not end the search
                 if unambiguous {
                     let inv = if o.nx { "C18.untrusted-nxdomain-final" } else { "C18.unavailable" };
-                    if exec::violate(inv, "", format!("caller {i}: {e} although a healthy server exists and every server answers or fails fast (sum {total_ms} ms of {} ms); servers {:?}", p.timeout_ms, p.servers)) {
+                    let shape = if *i == 1000 { "follow-up-after-cancel" } else if any_truncating { "after-truncation" } else { "" };
+                    if exec::violate(inv, shape, format!("caller {i}: {e} although a healthy server exists and every server answers or fails fast (sum {total_ms} ms of {} ms); servers {:?}", p.timeout_ms, p.servers)) {
                         return;
                     }
                 }
@@ -603,7 +698,7 @@ async fn scenario(p: Plan) {
         }
     }
     // (e) identical concurrent requests share one upstream exchange
-    if p.stagger_ms == 0 && !p.warmup {
+    if p.stagger_ms == 0 && !p.warmup && p.cancel_first_ms == 0 {
         let by_q: BTreeMap<u8, Vec<usize>> = p.callers.iter().enumerate().fold(BTreeMap::new(), |mut m, (i, q)| {
             m.entry(*q).or_default().push(i);
             m
